@@ -4,6 +4,7 @@ import (
 	"errors"
 	"fmt"
 	"io"
+	"runtime"
 	"strings"
 	"syscall"
 	"testing"
@@ -22,6 +23,7 @@ import (
 
 type readEvent struct {
 	K   int    `json:"k"`             // bytes offered by this Read (capped at len(p))
+	GC  bool   `json:"gc,omitempty"`  // run the garbage collector before delivering (between fragments)
 	Err string `json:"err,omitempty"` // "", "EOF", "UnexpectedEOF", "custom", "EAGAIN", "timeout"
 }
 
@@ -86,6 +88,10 @@ func (r *scriptReader) Read(p []byte) (int, error) {
 	if r.i < len(r.events) {
 		ev = r.events[r.i]
 		r.i++
+	}
+	if ev.GC {
+		runtime.GC()
+		runtime.GC()
 	}
 	k := min(ev.K, len(p))
 	if k < 0 {
@@ -266,7 +272,7 @@ func TestC06_Grid(t *testing.T) {
 				}
 			}
 			// successful deliveries in every fragmentation class
-			for _, style := range []string{"one", "bytewise", "cuts", "zero-reads", "oversized", "error-with-last", "exact-then-error"} {
+			for _, style := range []string{"one", "bytewise", "cuts", "zero-reads", "oversized", "error-with-last", "exact-then-error", "gc-between-fragments"} {
 				item++
 				if !mine(item) {
 					continue
@@ -276,6 +282,11 @@ func TestC06_Grid(t *testing.T) {
 				case "zero-reads":
 					for _, e := range fragment(need, "cuts") {
 						ev = append(ev, readEvent{K: 0}, e, readEvent{K: 0})
+					}
+				case "gc-between-fragments":
+					ev = fragment(need, "cuts")
+					for i := range ev {
+						ev[i].GC = i > 0
 					}
 				case "oversized":
 					ev = []readEvent{{K: 5}, {K: 1 << 20}}
